@@ -207,3 +207,73 @@ func (v *Val) Canon(src []byte) string {
 	}
 	return string(src[v.Begin : v.End+1])
 }
+
+// StructuralCands lists structural simplifications of a JSON text, coarsest first: for every container (in
+// document order) the text without a chunk of its children (chunks of k/2, k/4, ... 1 children), and the text
+// of every child of the root alone. All candidates are rendered compactly. Used to reduce long counterexamples
+// in a logarithmic number of steps before the byte-level reduction takes over.
+func StructuralCands(text string) []string {
+	src := []byte(text)
+	root, err := Parse(src)
+	if err != nil {
+		return nil
+	}
+	var out []string
+	var render func(b *[]byte, v, target *Val, from, to int)
+	render = func(b *[]byte, v, target *Val, from, to int) {
+		switch v.Kind {
+		case 'o', 'a':
+			open, close := byte('{'), byte('}')
+			if v.Kind == 'a' {
+				open, close = '[', ']'
+			}
+			*b = append(*b, open)
+			first := true
+			for i, ch := range v.Children {
+				if v == target && i >= from && i < to {
+					continue
+				}
+				if !first {
+					*b = append(*b, ',')
+				}
+				first = false
+				if v.Kind == 'o' {
+					*b = append(*b, src[v.Keys[i].Begin:v.Keys[i].End+1]...)
+					*b = append(*b, ':')
+				}
+				render(b, ch, target, from, to)
+			}
+			*b = append(*b, close)
+		default:
+			*b = append(*b, src[v.Begin:v.End+1]...)
+		}
+	}
+	var walk func(v *Val)
+	walk = func(v *Val) {
+		k := len(v.Children)
+		for size := (k + 1) / 2; size >= 1 && k > 0; size /= 2 {
+			for from := 0; from < k; from += size {
+				to := from + size
+				if to > k {
+					to = k
+				}
+				var b []byte
+				render(&b, root, v, from, to)
+				out = append(out, string(b))
+			}
+			if size == 1 {
+				break
+			}
+		}
+		for _, ch := range v.Children {
+			walk(ch)
+		}
+	}
+	for _, ch := range root.Children {
+		var b []byte
+		render(&b, ch, nil, 0, 0)
+		out = append(out, string(b))
+	}
+	walk(root)
+	return out
+}
